@@ -16,6 +16,11 @@ SPEC = {
         # listed message with its exact bytes, with a connector that cannot serve any literal again), audit the store
         # directory; the traces of the runs with an injected error go to the Lean judge `judge-c07-fail` (error handlers).
         # Instances 0..2 are the scripted variants of every operation (quick and thorough); 3,4 only vary the literal size.
+        # Restart states with a PARTLY LOST CACHE (modes <mode>+lost1 / <mode>+lostall): for every scenario that writes the store
+        # and for the start-up scenario the fault runs from the first store.Set on are repeated with the cache files of one /
+        # of all committed messages removed before the restart and a connector that serves literals - rows without a file
+        # together with the file without a row the interrupted operation left; same verdict (left-overs removed, every listed
+        # message fetched with its exact bytes from the cache or downloaded again; Theorems/C07 leftovers_removed_lost_cache).
         {"name": "c07crash", "quick_args": ["-insts", "0,1,2"], "thorough_args": ["-insts", "0,1,2,3,4"], "timeout": 3000},
         # OS-LEVEL write failures BELOW the store.Store interface, under the real on-disk store: a store-builder wrapper only
         # arranges for the kernel to fail the writes of the next cache file(s) (the file's path pre-created as a symlink to
@@ -45,7 +50,8 @@ SPEC = {
         "store-builder wrapper harness/o_c07os.go (gluon.WithStoreBuilder): passes every call to the real store.OnDiskStoreBuilder store; before a "
         "faulted Set it replaces the cache file's path by a symlink to /dev/full or lowers RLIMIT_FSIZE (SIGXFSZ ignored) for the duration of the real "
         "Set; classifies what the call left by the real Get (never through the /dev/full symlink); Sets are serialised while it is installed",
-        "facts translator harness/facts_crash.go (go/ast): interface method sets, storage calls of the anchored functions in source order, the collection the cache clean-up loop of applyMessagesCreated ranges over and the if-conditions under which it grows",
+        "facts translator harness/facts_crash.go (go/ast): interface method sets, storage calls of the anchored functions in source order, the collection the cache clean-up loop of applyMessagesCreated ranges over and the if-conditions under which it grows, "
+        "the return statements of the two start-up clean-up passes with their guards (source_startup_cleanup_unconditional)",
     ],
     "assumptions": [
         "NAMED hypothesis SetFaithful (Model/CrashSetOS.lean): a store.Set that returns nil has left the complete cache file with the bytes it was given - "
@@ -71,7 +77,7 @@ SPEC = {
     ],
     "explanation": "Lean: for every step list with at most one visible transaction and every step boundary, the restart view is the before- or the after-state (crash_atomic), the same for a failing step up to what the error handler commits (fail_decompose / fail_atomic_partial), "
                    "every row stays fetchable under the store discipline (listed_is_fetchable) - and, for operations that re-download nothing, keeps its COMPLETE cache file, also through the operation's error handler (listed_is_cached / fail_listed_is_cached with the named hypothesis handlerOk; "
-                   "false without it: fail_listed_is_cached_needs_handlerOk, a clean-up that deletes the file of a message the server already had) - and start-up removes all left-overs from any state (leftovers_removed); the structural facts are decided for every modelled operation instance "
+                   "false without it: fail_listed_is_cached_needs_handlerOk, a clean-up that deletes the file of a message the server already had) - and start-up removes all left-overs from any state (leftovers_removed), however many rows have lost their cache file in the meantime (leftovers_removed_lost_cache; the source's clean-up passes have no early exit but a failed read: source_startup_cleanup_unconditional); the structural facts are decided for every modelled operation instance "
                    "(operations on pre-existing objects included: connector updates naming known messages, duplicates in one batch, COPY/MOVE onto a mailbox holding the message, RENAME INBOX, RENAME/DELETE of non-empty hierarchies) and re-evaluated by the judges on the traces recorded from the real operation (judge-c07-trace; judge-c07-fail on the faulted runs). "
                    "Below the store interface (Theorems/C07SetOS.lean): with the named hypothesis SetFaithful the execution with the real outcomes of the Set calls is the model's, "
                    "so listed_is_cached holds whatever the operating system did to the writes (listed_is_cached_real_partial); without it an APPEND on a full disk is acknowledged, "
